@@ -12,7 +12,7 @@ An external that is not listed is treated as pure-fresh and counted in the evide
 FUNCS = {
     # numpy, pure-fresh
     "numpy.array": dict(ret="fresh", labelflow=True), "numpy.concatenate": dict(ret="fresh"), "numpy.append": dict(ret="fresh"),
-    "numpy.unique": dict(ret="fresh", labelflow=True), "numpy.where": dict(ret="fresh", tag="indexarr"),
+    "numpy.unique": dict(ret="fresh", labelflow=True, tag="unique"), "numpy.where": dict(ret="fresh", tag="indexarr"),
     "numpy.dot": dict(ret="fresh"), "numpy.sum": dict(ret="fresh"), "numpy.sqrt": dict(ret="fresh"),
     "numpy.square": dict(ret="fresh"), "numpy.zeros": dict(ret="fresh"), "numpy.identity": dict(ret="fresh"),
     "numpy.empty": dict(ret="fresh"), "numpy.full": dict(ret="fresh"), "numpy.cumsum": dict(ret="fresh"),
